@@ -1013,7 +1013,7 @@ def selftest(ctx):
     probability zero into a recorded sample trace, and drop one draw of the second seeded run.  Each must
     be reported."""
     rng = random.Random(5)
-    cases = make_cases(rng, 8, 2)
+    cases = make_cases(rng, 16, 2)
     ok = True
     # (A)
     state = {"done": False}
